@@ -59,8 +59,8 @@ Definition advance_time_delta (delta : Z) : M unit :=
                       end
            end.
 
-Definition advance_time_seconds (seconds_us : Z) : M unit :=
-  advance_time_delta (td_of_days_seconds 0 seconds_us).
+Definition advance_time_seconds (seconds : pynum) : M unit :=
+  bindM (lift (td_of_days_seconds 0 seconds)) advance_time_delta.
 
 (* utcnow_ts(microsecond) *)
 Definition utcnow_ts (microsecond : bool) : M fexp :=
@@ -75,29 +75,32 @@ Definition targ_to_dt (t : targ) : M dt :=
   match t with TStr s => parse_isotime s | TDt d => ret d end.
 
 (* is_older_than(before, seconds): utcnow() - before > timedelta(seconds=seconds) *)
-Definition is_older_than (before : targ) (seconds_us : Z) : M bool :=
+Definition is_older_than (before : targ) (seconds : pynum) : M bool :=
   bindM (targ_to_dt before) (fun before =>
   bindM (lift (normalize_time before)) (fun before =>
   bindM (utcnow false) (fun now =>
   bindM (lift (dt_sub now before)) (fun diff =>
-  ret (td_gt diff (td_of_seconds seconds_us)))))).
+  bindM (lift (td_of_seconds seconds)) (fun limit =>
+  ret (td_gt diff limit)))))).
 
 (* is_newer_than(after, seconds): after - utcnow() > timedelta(seconds=seconds) *)
-Definition is_newer_than (after : targ) (seconds_us : Z) : M bool :=
+Definition is_newer_than (after : targ) (seconds : pynum) : M bool :=
   bindM (targ_to_dt after) (fun after =>
   bindM (lift (normalize_time after)) (fun after =>
   bindM (utcnow false) (fun now =>
   bindM (lift (dt_sub after now)) (fun diff =>
-  ret (td_gt diff (td_of_seconds seconds_us)))))).
+  bindM (lift (td_of_seconds seconds)) (fun limit =>
+  ret (td_gt diff limit)))))).
 
 (* is_soon(dt, window): a string is parsed first (as in is_older_than); then
    normalize_time(dt) <= utcnow() + timedelta(seconds=window) *)
-Definition is_soon (t : targ) (window_us : Z) : M bool :=
+Definition is_soon (t : targ) (window : pynum) : M bool :=
   bindM (targ_to_dt t) (fun d =>
   bindM (utcnow false) (fun now =>
-  bindM (lift (dt_add_td now (td_of_seconds window_us))) (fun soon =>
+  bindM (lift (td_of_seconds window)) (fun delta =>
+  bindM (lift (dt_add_td now delta)) (fun soon =>
   bindM (lift (normalize_time d)) (fun n =>
-  lift (dt_le n soon))))).
+  lift (dt_le n soon)))))).
 
 (* marshall_now(now=None) *)
 Definition marshall_now (now : option dt) : M mrec :=
@@ -120,6 +123,12 @@ Definition unmarshall_time (tyme : mrec) : M dt :=
       bindM (call_zone tzname) (fun tzinfo => ret (dt_replace_zone d tzinfo))
   | None => ret d
   end).
+
+(* oslo_utils.fixture.TimeFixture: thin wrappers (the fixture keeps no instant of its own) *)
+Definition fixture_setUp (override_time : override) : M unit := set_time_override override_time.
+Definition fixture_cleanUp : M unit := clear_time_override.
+Definition fixture_advance_time_delta (delta : Z) : M unit := advance_time_delta delta.
+Definition fixture_advance_time_seconds (seconds : pynum) : M unit := advance_time_seconds seconds.
 
 (* delta_seconds(before, after) *)
 Definition delta_seconds (before after : dt) : res fexp :=
